@@ -57,6 +57,7 @@ func main() {
 	r.Sharded(len(scenarios)+len(watcherScenarios)+1, func(si, sn int) {
 		if si == len(scenarios)+len(watcherScenarios) {
 			factoryShard(r)
+			sequenceShard(r)
 			return
 		}
 		if si >= len(scenarios) {
